@@ -21,6 +21,7 @@ package main
 
 import (
 	"fmt"
+	"go/ast"
 	"go/token"
 	"go/types"
 	"math/big"
@@ -204,7 +205,7 @@ func c09shiftModel(cc *Ctx, rule, ruleState string) {
 		name string
 		v    [3]poly
 	}
-	specs := func(dp []poly) []specT {
+	specsAt := func(dp []poly, X, Y, Z poly) []specT {
 		neg := func(p poly) poly { return p.scale(ratInt(-1)) }
 		sum := func(ps ...poly) poly {
 			out := poly{}
@@ -234,11 +235,17 @@ func c09shiftModel(cc *Ctx, rule, ruleState string) {
 		}
 		return []specT{{"to WGS84", to}, {"from WGS84", from}}
 	}
+	specs := func(dp []poly) []specT { return specsAt(dp, X, Y, Z) }
+	// the conversions between geodetic and geocentric coordinates: members of the class whose
+	// evaluation needs a transcendental function
+	conv := map[*types.Func]shiftFn{}
+	sawMath := false
 	// while the functions are classified, anything transcendental ends the evaluation: a shift is
 	// rational in the position (the conversions, with their iterative solvers, are not evaluated)
 	plain := m.it.stub
 	m.it.stub = func(f *types.Func, recv oval, args []oval) ([]oval, bool) {
 		if f.Pkg() != nil && f.Pkg().Path() == "math" {
+			sawMath = true
 			n := f.Type().(*types.Signature).Results().Len()
 			out := make([]oval, n)
 			for i := range out {
@@ -263,7 +270,13 @@ func c09shiftModel(cc *Ctx, rule, ruleState string) {
 		sp := specs(dp)
 		found := map[string]*types.Func{}
 		for _, sf := range class {
+			// a conversion: needs a transcendental function on a geodetic or on a geocentric position
+			sawMath = false
+			callOn(sf, dcase.d, polyVar("lam"), polyVar("phi"), polyVar("hh"))
 			res, why := callOn(sf, dcase.d, X, Y, Z)
+			if sawMath {
+				conv[sf.fn] = sf
+			}
 			if why != "" {
 				// not interpretable on a geocentric position: a conversion with an iterative solver; not a
 				// shift function unless nothing else is found (reported below)
@@ -303,21 +316,50 @@ func c09shiftModel(cc *Ctx, rule, ruleState string) {
 				c.OK(rule, cons, pos, "equals the %s shift %s as a rational term in (X, Y, Z) and the stored parameters", dcase.what, match)
 			}
 		}
-		for _, s := range sp {
-			if found[s.name] == nil {
-				c.Unk(rule, "proj#shift("+dcase.what+", "+s.name+")", token.NoPos, "no function of one datum and three ordinates computes the %s shift %s", dcase.what, s.name)
-			}
-		}
 	}
 	m.it.stub = plain
-	// ---- the whole shift: order of the steps, the height, the datums left alone
+	// ---- the whole shift, as one identity.  The outermost function of two datums and three
+	// ordinates is evaluated between the 7-parameter and the 3-parameter datum with the conversions
+	// left as named operations and everything else interpreted: the position must go through the
+	// source's conversion to geocentric coordinates G, then the destination's conversion back must
+	// be given exactly from₃(to₇(G)), and its three results must be what the shift returns.
+	var wholes []*types.Func
+	for _, fn := range cc.P.RepoFuncs() {
+		if cc.P.DeclPkg(fn) != pk || cc.P.Decl(fn) == nil {
+			continue
+		}
+		sig := fn.Type().(*types.Signature)
+		if sig.Recv() != nil || sig.Params().Len() != 5 || sig.Results().Len() < 3 {
+			continue
+		}
+		if isDatumPtr(sig.Params().At(0).Type()) && isDatumPtr(sig.Params().At(1).Type()) && isFloat64(sig.Params().At(2).Type()) && isFloat64(sig.Params().At(3).Type()) && isFloat64(sig.Params().At(4).Type()) && isFloat64(sig.Results().At(0).Type()) {
+			wholes = append(wholes, fn)
+		}
+	}
+	calledByAnother := map[*types.Func]bool{}
+	for _, a := range wholes {
+		ast.Inspect(cc.P.Decl(a).Body, func(n ast.Node) bool {
+			if call, ok := n.(*ast.CallExpr); ok {
+				if g := callee(pk.TypesInfo, call); g != nil && g != a {
+					calledByAnother[g] = true
+				}
+			}
+			return true
+		})
+	}
+	whole = nil
+	for _, a := range wholes {
+		if !calledByAnother[a] && whole == nil {
+			whole = a
+		}
+	}
 	if whole == nil || cc.P.Decl(whole) == nil {
 		c.Unk(rule, "proj#datum-shift(order)", token.NoPos, "no function of two datums and three ordinates found")
 		return
 	}
-	inClass := map[*types.Func]shiftFn{}
-	for _, sf := range class {
-		inClass[sf.fn] = sf
+	if len(conv) == 0 {
+		c.Unk(rule, cc.P.FuncName(whole)+"#steps", cc.P.Decl(whole).Pos(), "no conversion between geodetic and geocentric coordinates (a function of one datum and three ordinates that uses a transcendental function) found")
+		return
 	}
 	type step struct {
 		fn    *types.Func
@@ -328,7 +370,7 @@ func c09shiftModel(cc *Ctx, rule, ruleState string) {
 	labels := map[*oStruct]string{d7: "source", d3: "destination"}
 	inner := m.it.stub
 	m.it.stub = func(f *types.Func, recv oval, args []oval) ([]oval, bool) {
-		sf, ok := inClass[f]
+		sf, ok := conv[f]
 		if !ok {
 			return inner(f, recv, args)
 		}
@@ -356,7 +398,7 @@ func c09shiftModel(cc *Ctx, rule, ruleState string) {
 			return nil, false
 		}
 		l := labels[d]
-		name := f.Name() + "@" + l
+		name := fmt.Sprintf("%s@%s/%d", f.Name(), l, len(steps))
 		steps = append(steps, step{f, l, [3]poly{ord[0], ord[1], ord[2]}})
 		sig := f.Type().(*types.Signature)
 		out := []oval{oSym{symAtom(name+"#0", ord...)}, oSym{symAtom(name+"#1", ord...)}, oSym{symAtom(name+"#2", ord...)}}
@@ -379,75 +421,41 @@ func c09shiftModel(cc *Ctx, rule, ruleState string) {
 		c.Unk(rule, cons, pos, "result count")
 		return
 	}
+	outAtom := func(i int, k int) poly {
+		st := steps[i]
+		return symAtom(fmt.Sprintf("%s@%s/%d#%d", st.fn.Name(), st.label, i, k), st.args[0], st.args[1], st.args[2])
+	}
 	bad := ""
 	var seq []string
-	toAt, fromAt := -1, -1
-	for i, s := range steps {
-		r := role[s.fn]
-		if r == "" {
-			r = "conversion"
-		}
-		seq = append(seq, fmt.Sprintf("%s(%s of the %s datum)", s.fn.Name(), r, s.label))
-		if r == "to WGS84" && s.label == "source" && toAt < 0 {
-			toAt = i
-		}
-		if r == "from WGS84" && s.label == "destination" && fromAt < 0 {
-			fromAt = i
-		}
-		if r == "to WGS84" && s.label == "destination" || r == "from WGS84" && s.label == "source" {
-			bad = fmt.Sprintf("the shift %s is applied with the parameters of the %s datum", r, s.label)
-		}
-	}
-	chain := func(i int) bool { // the arguments of step i are the three results of step i−1, in order
-		if i <= 0 {
-			return false
-		}
-		prev := steps[i-1]
-		name := prev.fn.Name() + "@" + prev.label
-		for k := 0; k < 3; k++ {
-			want := symAtom(fmt.Sprintf("%s#%d", name, k), prev.args[0], prev.args[1], prev.args[2])
-			if !steps[i].args[k].equal(want) {
-				return false
-			}
-		}
-		return true
+	for _, st := range steps {
+		seq = append(seq, fmt.Sprintf("%s (%s datum)", st.fn.Name(), st.label))
 	}
 	switch {
-	case bad != "":
-	case toAt < 0 || fromAt < 0:
-		bad = "between a 7-parameter and a 3-parameter datum the position does not go through the source's shift to WGS84 and the destination's shift from WGS84 (steps: " + strings.Join(seq, ", ") + ")"
-	case fromAt != toAt+1:
-		bad = "the destination's shift from WGS84 does not directly follow the source's shift to WGS84 (steps: " + strings.Join(seq, ", ") + ")"
-	case toAt == 0 || fromAt == len(steps)-1:
-		bad = "the shifts are not applied between a conversion to geocentric coordinates and one back (steps: " + strings.Join(seq, ", ") + ")"
+	case len(steps) != 2:
+		bad = fmt.Sprintf("between a 7-parameter and a 3-parameter datum the position goes through %d conversions between geodetic and geocentric coordinates (%s), not one to geocentric coordinates and one back", len(steps), strings.Join(seq, ", "))
+	case steps[0].label != "source" || steps[1].label != "destination":
+		bad = "the conversions are not the source datum's to geocentric coordinates followed by the destination datum's back (" + strings.Join(seq, ", ") + ")"
+	case !steps[0].args[0].equal(polyVar("lam")) || !steps[0].args[1].equal(polyVar("phi")) || !steps[0].args[2].equal(polyVar("hh")):
+		bad = "the conversion to geocentric coordinates is not given the longitude, latitude and height the shift was called with"
 	default:
-		for i := 1; i < len(steps); i++ {
-			if !chain(i) {
-				bad = fmt.Sprintf("step %d (%s) is not given the three ordinates step %d produced, in order: an ordinate is dropped, swapped or recomputed on the way", i+1, steps[i].fn.Name(), i)
-				break
+		g := [3]poly{outAtom(0, 0), outAtom(0, 1), outAtom(0, 2)}
+		mid := specsAt(params(d7), g[0], g[1], g[2])[0].v
+		want := specsAt(params(d3), mid[0], mid[1], mid[2])[1].v
+		for k := 0; k < 3 && bad == ""; k++ {
+			if !symRationalEqual(steps[1].args[k], want[k]) {
+				bad = fmt.Sprintf("with (X, Y, Z) the geocentric position of the source, the conversion back is given %s' = %s; the source's shift to WGS84 followed by the destination's shift from WGS84 gives %s (translation t = p0..p2, rotations r = p3..p5, scale m = p6 of each datum)", axis[k], short(steps[1].args[k].canon()), short(want[k].canon()))
 			}
 		}
-		if bad == "" {
-			first := steps[0]
-			if !first.args[0].equal(polyVar("lam")) || !first.args[1].equal(polyVar("phi")) || !first.args[2].equal(polyVar("hh")) {
-				bad = "the first conversion is not given the longitude, latitude and height the shift was called with"
-			}
-		}
-		if bad == "" {
-			last := steps[len(steps)-1]
-			name := last.fn.Name() + "@" + last.label
-			for k := 0; k < 3; k++ {
-				want := symAtom(fmt.Sprintf("%s#%d", name, k), last.args[0], last.args[1], last.args[2])
-				if got, ok := symOf(res[k]); !ok || !got.equal(want) {
-					bad = fmt.Sprintf("result %d of the shift is not ordinate %d of the last conversion", k+1, k+1)
-				}
+		for k := 0; k < 3 && bad == ""; k++ {
+			if got, ok := symOf(res[k]); !ok || !got.equal(outAtom(1, k)) {
+				bad = fmt.Sprintf("result %d of the shift is not ordinate %d of the conversion back to geodetic coordinates", k+1, k+1)
 			}
 		}
 	}
 	if bad != "" {
 		c.Bad(rule, cons, pos, "%s", bad)
 	} else {
-		c.OK(rule, cons, pos, "geodetic → geocentric (source), to WGS84 (source), from WGS84 (destination), geocentric → geodetic (destination); every step is handed the three ordinates of the one before")
+		c.OK(rule, cons, pos, "geodetic → geocentric with the source datum, then exactly from₃(to₇(·)) as a rational term, then geocentric → geodetic with the destination datum; all three ordinates travel through")
 	}
 	if ruleState != "" {
 		cons := cc.P.FuncName(whole) + "#datums-unchanged"
